@@ -569,6 +569,14 @@ pub fn run(a: &Args, rep: &mut Report, cl: bool) {
                 hooks::reset(10_000, false);
                 let pk = l.pkt.as_ref().map(|p| (p.addr() as *mut u8, p.len())).unwrap_or((std::ptr::null_mut(), 0));
                 let mb = l.mbuff.as_ref().map(|p| (p.addr() as *mut u8, p.len())).unwrap_or((std::ptr::null_mut(), 0));
+                // "after something went wrong": a quarter of the interpreter cases are preceded, on
+                // the same VM, by an execution with no packet and no metadata buffer (refused for
+                // programs that reach them through r1 / ld_abs / ld_ind); arenas are restored after it
+                if !cl && cases[i].off % 4 == 1 {
+                    let _ = vm.exec((std::ptr::null_mut(), 0), (std::ptr::null_mut(), 0));
+                    reset(&l);
+                    hooks::reset(10_000, false);
+                }
                 if cl {
                     #[cfg(feature = "std")]
                     {
